@@ -405,6 +405,20 @@ Definition audited_cache_uses : list (string * string) :=
   [("src/Type.c", "enum "); ("src/Type.c", "Type_New"); ("src/Type.c", "Type_Builtin_Name");
    ("src/Type.c", "Type_Builtin_Size"); ("src/Type.c", "Type_Instance")]%string.
 
+(* index normalisation and test of every CELLO_BOUND_CHECK block (Generated.cfg_bound_guards):
+   wrap = `i < 0 ? n+i : i`, wrap1 = `i < 0 ? (n+1)+i : i`; oob = `i < 0 or i >= n`, oob1 = `… >= n+1`,
+   empty = `n is 0`, shrink = `new size < nitems` (Table_Resize) *)
+Definition audited_bound_guards : list (string * string * string) :=
+  [("Array_Pop_At", "wrap", "oob"); ("Array_Push_At", "wrap1", "oob1"); ("Array_Pop", "none", "empty");
+   ("Array_Get", "wrap", "oob"); ("Array_Set", "wrap", "oob");
+   ("List_At", "wrap", "oob"); ("List_Pop", "none", "empty");
+   ("Table_Resize", "none", "shrink");
+   ("Tuple_Get", "wrap", "oob"); ("Tuple_Set", "wrap", "oob"); ("Tuple_Pop", "none", "empty");
+   ("Tuple_Push_At", "wrap", "oob"); ("Tuple_Pop_At", "wrap", "oob")]%string.
+
+Definition str3_eqb (a b : string * string * string) : bool :=
+  String.eqb (fst (fst a)) (fst (fst b)) && String.eqb (snd (fst a)) (snd (fst b)) && String.eqb (snd a) (snd b).
+
 Definition pair_eqb (a b : string * string) : bool :=
   String.eqb (fst a) (fst b) && String.eqb (snd a) (snd b).
 
